@@ -416,8 +416,9 @@ def solve_sat(
             add_watch(clause[1], i)
 
     # Pure literal elimination preserves satisfiability, not the model set
+    assumed_vars = {lit_var(lit) for lit in assumptions}
     for var, val in find_pure_literals() if solution_limit == 1 else ():
-        if vals[var] == UNDEF:
+        if vals[var] == UNDEF and var not in assumed_vars:
             assign(var, val, -1)
 
     for lit, idx in unit_clauses:
